@@ -33,6 +33,21 @@ func (p *SafePool) Mark(v Value, flags MarkFlags) {
 	}
 }
 
+// Marked returns true if v is marked in this pool.
+func (p *SafePool) Marked(v Value) bool {
+	for _, x := range p.markedFinalize {
+		if x == v {
+			return true
+		}
+	}
+	for _, x := range p.markedRelease {
+		if x == v {
+			return true
+		}
+	}
+	return false
+}
+
 // append y to the end of xs, removing a previous occurrence of y in xs if
 // found.  It is assumed that xs doesn't have any duplicates.
 func appendNoDup(xs []Value, y Value) []Value {
